@@ -185,6 +185,10 @@ type ProviderInput struct {
 
 	// If the provider is a struct, FieldName will be the field name to set.
 	FieldName string
+
+	// fieldPkg is the package that declares the field (which need not be the
+	// package of the struct type: type L other.S).
+	fieldPkg *types.Package
 }
 
 // Value describes a value expression.
@@ -812,6 +816,7 @@ func processStructLiteralProvider(fset *token.FileSet, typeName *types.TypeName)
 		provider.Args[i] = ProviderInput{
 			Type:      f.Type(),
 			FieldName: f.Name(),
+			fieldPkg:  f.Pkg(),
 		}
 		for j := 0; j < i; j++ {
 			if types.Identical(provider.Args[i].Type, provider.Args[j].Type) {
@@ -872,6 +877,7 @@ func processStructProvider(fset *token.FileSet, info *types.Info, call *ast.Call
 			provider.Args = append(provider.Args, ProviderInput{
 				Type:      f.Type(),
 				FieldName: f.Name(),
+				fieldPkg:  f.Pkg(),
 			})
 		}
 	} else {
@@ -884,6 +890,7 @@ func processStructProvider(fset *token.FileSet, info *types.Info, call *ast.Call
 			provider.Args[i-1] = ProviderInput{
 				Type:      v.Type(),
 				FieldName: v.Name(),
+				fieldPkg:  v.Pkg(),
 			}
 		}
 	}
